@@ -55,6 +55,7 @@ package authenticode
 //@
 //@ func VerifyMSI
 //@   property C02
+//@   requires f != nil
 //@   ghost psdG *pkcs7.ContentInfoSignedData = nil
 //@   ghost cmsOK bool = false
 //@   ghost recomputed []byte = nil
